@@ -80,6 +80,9 @@ SHAPES = [
     ("string macro referred to twice inside one name", [{"name": "@h", "pattern": "[0-9a-f]"}, {"name": "@l", "pattern": "l"}],
      [{S("M"): ["0x@h@h", "@h@h"]}, {"cmov@l@l": [S("O")]}, "j@l@l"],
      [{S("M"): ["0x[0-9a-f][0-9a-f]", "[0-9a-f][0-9a-f]"]}, {"cmovll": [S("O")]}, "jll"]),
+    ("string macro in a key name and again below that key", [{"name": "@s", "pattern": "b"}],
+     [{"movz@sl": ["%@sl", {"$deref": {"main_reg": "%r@sx"}}]}, {"j@s": {"times": 2}}],
+     [{"movzbl": ["%bl", {"$deref": {"main_reg": "%rbx"}}]}, {"jb": {"times": 2}}]),
     ("block macro used with a times body", [SHIFT], [{"@shift": {"times": 2}}, S("X")],
      [{"$or": [S("SHL"), S("SHR")], "times": 2}, S("X")]),
     ("block macro used with a sibling times", [SHIFT], [{"@shift": None, "times": {"min": 0, "max": 3}}, S("X")],
